@@ -103,7 +103,7 @@ func (x *exec) callFunction(st *State, cs *callSite, fn *ssa.Function, bind []Va
 	if ct != nil {
 		ct.Used = true
 	}
-	if ct != nil && !ct.Inline {
+	if ct != nil && !ct.Inline && fn.Parent() == nil {
 		x.contractCall(st, cs, fn, ct, key, fn.Signature, args, k)
 		return
 	}
@@ -113,7 +113,7 @@ func (x *exec) callFunction(st *State, cs *callSite, fn *ssa.Function, bind []Va
 			return
 		}
 		// inline: closures have no identity of their own; "inline" contracts are accessors
-		x.pushFrame(st, fn, args, bind, func(st *State, out Outcome) {
+		x.pushFrameAt(st, fn, args, bind, func(st *State, out Outcome) {
 			if out.Panic {
 				x.raise(st, out.PVal)
 				return
@@ -126,7 +126,7 @@ func (x *exec) callFunction(st *State, cs *callSite, fn *ssa.Function, bind []Va
 			default:
 				k(st, TupleV(out.Vals))
 			}
-		})
+		}, cs.pos)
 		st.top().isDeferredCall = deferred
 		x.runBlock(st, fn.Blocks[0], nil)
 		return
@@ -531,6 +531,7 @@ func (x *exec) contractCall(st *State, cs *callSite, fn *ssa.Function, ct *Contr
 		tag := x.panicTag(ct)
 		pv := &IfaceV{Tag: tag, Pay: x.ctx.fresh("panicval", SInt)}
 		st2.path = append(st2.path, "panic-in:"+shortName(key))
+		st2.storageFault = true
 		x.raise(st2, pv)
 		delete(vars, "result0")
 	}
